@@ -46,11 +46,20 @@ theorem good_enum {env : Env} (hS : structsClosed env = true) {n : String} (hn :
     simp only [Bool.and_eq_true, List.isEmpty_iff, decide_eq_true_eq, List.all_eq_true] at h
     exact ⟨d, rfl, h.1.1, h.1.2, fun v hv => ⟨fun t ht => (h.2 v hv).1 t ht, (h.2 v hv).2⟩⟩
 
+mutual
 theorem valTyS_flat {S E : List String} : ∀ {t : Ty}, valTyS S E t = true → flatTy t = true
   | .ref e, h => by simp only [valTyS] at h; simp only [flatTy]; exact valTyS_flat h
+  | .tuple ts, h => by simp only [valTyS] at h; simp only [flatTy]; exact valTysS_flat h
   | .unit, _ | .bool, _ | .string, _ | .int _ _, _ | .struct _, _ | .enum _, _ => rfl
-  | .float _, h | .tuple _, h | .dyn _, h | .app _ _, h | .array _ _, h | .vec _, h | .param _, h | .func _ _, h
+  | .float _, h | .dyn _, h | .app _ _, h | .array _ _, h | .vec _, h | .param _, h | .func _ _, h
   | .tvar _, h => by simp [valTyS, scalarTy] at h
+theorem valTysS_flat {S E : List String} : ∀ {ts : List Ty}, valTysS S E ts = true → flatTys ts = true
+  | [], _ => rfl
+  | t :: ts, h => by
+    simp only [valTysS, Bool.and_eq_true] at h
+    simp only [flatTys, Bool.and_eq_true]
+    exact ⟨valTyS_flat h.1, valTysS_flat h.2⟩
+end
 
 theorem valTy_flat {env : Env} {t : Ty} (h : valTy env t = true) : flatTy t = true := valTyS_flat h
 
@@ -147,5 +156,20 @@ theorem slit_variant {env : Env} {F : GFile} (ht : TyLink env F) {n : String} (h
     congr 1
     exact slit_fields F decl _ gvs _ hnames (by rw [length_fieldNames, hlen])
       (fun i x g hx hg => lookup_zip _ gvs i x g hnd hx hg)
+
+/-- what the file must contain for a tuple type: its struct, declared with the fields `_0, _1, …` -/
+structure TupLink (F : GFile) (ts : List Ty) : Prop where
+  nodup : (fieldNames 0 ts.length).Nodup
+  table : ∃ decl, F.structFields (goTypeNameFor (.tuple ts)) = some decl ∧ decl.map (·.1) = fieldNames 0 ts.length
+
+/-- a composite literal of a tuple struct with all its fields evaluates to exactly them -/
+theorem slit_tuple {F : GFile} {ts : List Ty} (hl : TupLink F ts) {gvs : List GVal} (hlen : gvs.length = ts.length) :
+    slitValue F (goTypeNameFor (.tuple ts)) ((fieldNames 0 ts.length).zip gvs) =
+      .struct (goTypeNameFor (.tuple ts)) ((fieldNames 0 ts.length).zip gvs) := by
+  obtain ⟨decl, hd, hn⟩ := hl.table
+  simp only [slitValue, hd]
+  congr 1
+  exact slit_fields F decl _ gvs _ hn (by rw [length_fieldNames, hlen])
+    (fun i x g hx hg => lookup_zip _ gvs i x g hl.nodup hx hg)
 
 end Goml.GoComp
